@@ -146,7 +146,8 @@ type Driver struct {
 }
 
 func StartDriver(path string) (*Driver, error) {
-	cmd := exec.Command(path)
+	// deep (non-tail) recursion of some model functions on MiB-sized inputs needs a large stack
+	cmd := exec.Command("/bin/sh", "-c", "ulimit -s unlimited 2>/dev/null || ulimit -s 4000000 2>/dev/null; exec \"$0\"", path)
 	w, err := cmd.StdinPipe()
 	if err != nil {
 		return nil, err
